@@ -904,8 +904,15 @@ def check_footer(ctx, rule):
             if kk[0] == 'RES' and isinstance(val, Int) and kk[1] in ('dst_start', 'dst_end'):
                 key = kk[2:]
                 hull[key] = val if key not in hull else hull[key].join(val)
-    if len(hull) < 7:
-        raise AnalysisBroken('%s: parser ranges not available' % rule)
+    need = [('date', 'fmt'), ('date', 'j', 'day'), ('date', 'n', 'day'), ('date', 'm', 'month'), ('date', 'm', 'week'),
+            ('date', 'm', 'weekday'), ('time', 'offset')]
+    missing = [k_ for k_ in need if k_ not in hull]
+    for k_ in missing:
+        ctx.bad(rule, 'footer parser determines %s' % '.'.join(k_), R['fn'],
+                'no accepting path of the footer parser assigns %s: the rule expander reads an indeterminate value' % '.'.join(k_),
+                construct='footer:missing:%s' % '.'.join(k_))
+    if missing:
+        return 0
     k = G.one('cctz::TransOffset')
     u, f = G.defs[k]
     obs = _SubObs()
